@@ -268,7 +268,7 @@ pub fn check(case: &Case, idx: u64, acc: &mut Acc) {
         }
         Case::Reject { nccy: _, pairs, base, settle } => {
             acc.eval();
-            let dates: [Option<NaiveDateTime>; 3] = [None, Some(to_ndt(19800)), Some(to_ndt(19801))];
+            let dates: [Option<NaiveDateTime>; 4] = [None, Some(to_ndt(19800)), Some(to_ndt(19801)), Some(to_ndt(19800) + chrono::Duration::milliseconds(500))];
             let rates: Vec<FXRate> = pairs
                 .iter()
                 .zip(settle.iter())
@@ -572,7 +572,7 @@ pub fn cases(tier: Tier) -> Vec<Case> {
             }
         } else {
             for i in 0..l {
-                for dev in [0u8, 2u8] {
+                for dev in [0u8, 2u8, 3u8] {
                     let mut p = vec![1u8; l];
                     p[i] = dev;
                     patterns.push(p);
@@ -614,7 +614,7 @@ pub fn run(ctx: &Ctx, replay_file: Option<String>) -> ! {
          all rotations) x 4 orientation patterns x every base. Oracle: all n^2 rates present, quoted pairs bit-exact, \
          diagonal exactly 1, r(a,b)*r(b,a)=1 and r(a,b) = exact path product to 1e-12 - which also makes the result \
          independent of ordering and base; a clone, and a market over the same currencies in another order overwritten with clone_from, answer exactly as their source. (3) rejection: every quote sequence of length <= 4 over all ordered pairs of \
-         4 (5) currencies x base in {None, each, one foreign} x settlement patterns over {None, d1, d2}: accepted iff \
+         4 (5) currencies x base in {None, each, one foreign} x settlement patterns over {None, d1, d2, d1 + half a second}: accepted iff \
          the quotes form a tree over exactly the mentioned currencies and all settlements are equal; never a panic; the same verdict \
          is demanded on the 10..13-currency shapes, valid and broken in one place (an extra quote closing a cycle, a repeated quote in either orientation, \
          a missing quote, one deviating settlement, a base that is not quoted). \
